@@ -95,15 +95,20 @@ type Query { shape(n: Int): Shape sq: Sq u: U list(first: Int = 4, w: Float = 1)
 func randomSDL(r *rng.R) string {
 	nObj, nIf, nUn := 2+r.Below(4), 1+r.Below(3), r.Below(3)
 	var objs, ifs, uns, comp []string
+	// names as real schemas spell them: the walker must hand them to Complexity() verbatim (leading lower case,
+	// snake_case, all caps, digits, initialisms), for type names and for field names
+	spell := func(styles []string, i int) string { return fmt.Sprintf(styles[r.Below(len(styles))], i) }
 	for i := 0; i < nObj; i++ {
-		objs = append(objs, fmt.Sprintf("O%d", i))
+		objs = append(objs, spell([]string{"O%d", "O%d", "o%d", "obj_%d", "o%dX", "OBJ_%d", "iO%dURL"}, i))
 	}
 	for i := 0; i < nIf; i++ {
-		ifs = append(ifs, fmt.Sprintf("I%d", i))
+		ifs = append(ifs, spell([]string{"I%d", "I%d", "i%d", "iface_%d", "HTTPI%d"}, i))
 	}
 	for i := 0; i < nUn; i++ {
-		uns = append(uns, fmt.Sprintf("U%d", i))
+		uns = append(uns, spell([]string{"U%d", "U%d", "u%d", "u_%d_set"}, i))
 	}
+	fieldStyles := []string{"%s", "%s", "F%s", "f_%s", "%s_ID", "%sUrl", "X_%s_2"}
+	fname := func(base string) string { return fmt.Sprintf(fieldStyles[r.Below(len(fieldStyles))], base) }
 	comp = append(append(append(comp, objs...), ifs...), uns...)
 	field := func(name string) string {
 		t := []string{"%s", "%s!", "[%s]", "[%s!]!"}[r.Below(4)]
@@ -133,7 +138,7 @@ func randomSDL(r *rng.R) string {
 	ifFields := make([][]string, nIf)
 	for i := range ifs {
 		for j := 0; j <= r.Below(3); j++ {
-			ifFields[i] = append(ifFields[i], field(fmt.Sprintf("i%df%d", i, j)))
+			ifFields[i] = append(ifFields[i], field(fname(fmt.Sprintf("i%df%d", i, j))))
 		}
 		fmt.Fprintf(&b, "interface %s { %s }\n", ifs[i], strings.Join(ifFields[i], " "))
 	}
@@ -146,7 +151,7 @@ func randomSDL(r *rng.R) string {
 			}
 		}
 		for j := 0; j <= r.Below(3); j++ {
-			fs = append(fs, field(fmt.Sprintf("o%df%d", i, j)))
+			fs = append(fs, field(fname(fmt.Sprintf("o%df%d", i, j))))
 		}
 		hdr := "type " + o
 		if len(impl) > 0 {
@@ -168,7 +173,7 @@ func randomSDL(r *rng.R) string {
 	}
 	b.WriteString("type Query { scalar: Int")
 	for _, c := range comp {
-		fmt.Fprintf(&b, " q%s(n: Int = 2): %s", c, c)
+		fmt.Fprintf(&b, " %s(n: Int = 2): %s", fname("q"+c), c)
 	}
 	b.WriteString(" }\n")
 	return b.String()
